@@ -111,6 +111,22 @@ def main():
                               "messages": [{"body": b"Subject: w\n\nwide\n", "sender": b"ws%d@origin.test" % wi, "rcpts": rc}], "outcomes": oc,
                               "script": [("inject", 0), ("answer", "lifo"), ("answer", "fifo"), ("answer", "random")],
                               "conc": (conc, 20) if chan == 0 else (10, conc), "announce": (ann, 120) if chan == 0 else (120, ann)})
+        # mixed wide messages: recipients of both channels in one envelope, enough of them that each channel's list is written out
+        # in several pieces (the daemon's 1024-byte buffers) while the other channel's is still being collected
+        for wi, (nl, nr, order) in enumerate(((40, 1, "rl"), (1, 40, "lr"), (30, 30, "alt")) + (((45, 3, "rl"), (26, 26, "alt"), (60, 2, "lr")) if thorough else ())):
+            lo = [b"mx%dl%02d-padding-padding@local.test" % (wi, k) for k in range(nl)]
+            re_ = [b"mx%dr%02d-padding-padding@remote.test" % (wi, k) for k in range(nr)]
+            if order == "rl":
+                rc = re_ + lo
+            elif order == "lr":
+                rc = lo + re_
+            else:
+                rc = [x for pair in zip(lo, re_) for x in pair]
+            oc = {r.decode(): "K" for r in rc}
+            oc["mxs%d@origin.test" % wi] = "K"
+            hists.append({"id": "mixed-wide-%d-%d-%s" % (nl, nr, order), "seed": 5200 + wi, "strict": 1, "drain_rounds": 40,
+                          "messages": [{"body": b"Subject: m\n\nmixed\n", "sender": b"mxs%d@origin.test" % wi, "rcpts": rc}], "outcomes": oc,
+                          "script": [("inject", 0), ("answer", "fifo"), ("answer", "fifo"), ("answer", "fifo"), ("answer", "fifo")], "conc": (50, 50), "announce": (120, 120)})
         if prop == "C04":
             # a second queue manager started while the first still has attempts outstanding (an overlapping restart): it must refuse
             # to run; whatever it writes to its own spawners would be a second attempt for recipients already being attempted
